@@ -355,6 +355,8 @@ func checkC19(ctx *Ctx, r *Report, tier string) {
 	checkOneLatticeForBothPasses(ctx, r)
 	checkVoxelCornerLattice(ctx, r)
 	checkTreeSettingsInherited(ctx, r)
+	checkLatticeToWorld(ctx, r)
+	checkRootCoversAllAxes(ctx, r)
 	degenerateToleranceZero(ctx, r, "K3", "render/dc")
 	checkPowerOfTwo(ctx, r)
 	checkWarnOnceBlocks(ctx, r)
@@ -2113,4 +2115,120 @@ func degenerateToleranceZero(ctx *Ctx, r *Report, rule string, pkgs ...string) {
 		})
 	}
 	r.Counts["degenerate_filters"] += n
+}
+
+// checkLatticeToWorld (K16): the octree's lattice has cellCounts cells across the shape's box on
+// each axis (the counts are rounded up to powers of two per axis, so the lattice is not cubic):
+// the lattice offset i lies at Min + (Max − Min)·i/cellCounts. Dividing by the side of the
+// (cubic) octree instead agrees on the longest axis only; on the others the cells are stretched
+// past the box, the pruning in Populate then drops them and the mesh of a bar or a plate is cut
+// open. The closed form of relToSDF is evaluated on four lattices.
+func checkLatticeToWorld(ctx *Ctx, r *Report) {
+	rel := ctx.ssaFunc("render/dc", "(*dcOctree).relToSDF")
+	if rel == nil {
+		r.undecided("K16", "dcOctree.relToSDF", 0, "not found")
+		return
+	}
+	ev := newEval(ctx)
+	res, _ := ev.evalRoot(rel)
+	W := pointTerms(res, 3)
+	if W == nil || len(rel.Params) < 3 {
+		r.undecided("K16", "dcOctree.relToSDF", rel.Pos(), "not a closed form")
+		return
+	}
+	node, d, idx := paramName(rel, 0), paramName(rel, 1), paramName(rel, 2)
+	bad := ""
+	n := 0
+	for _, cc := range [][3]float64{{8, 8, 8}, {8, 4, 2}, {2, 16, 4}, {4, 2, 32}} {
+		mesh := math.Max(cc[0], math.Max(cc[1], cc[2]))
+		for _, i := range [][3]float64{{0, 0, 0}, {1, 1, 1}, {3, 1, 2}} {
+			env := map[string]float64{node + ".meshSize": mesh, node + ".size": mesh}
+			mn, mx := [3]float64{-1, 2, 0.5}, [3]float64{3, 4.5, 1.25}
+			for k, ax := range axes3 {
+				env[node+".cellCounts."+ax] = cc[k]
+				env[idx+"."+ax] = i[k]
+				env["call:"+d+".BoundingBox().Min."+ax] = mn[k]
+				env["call:"+d+".BoundingBox().Max."+ax] = mx[k]
+			}
+			for k, ax := range axes3 {
+				got, ok := evalFloat(stripConv(W[k]), env)
+				if !ok {
+					bad = " the closed form has other inputs than the box, the counts and the offset: " + shortKey(W[k].Key(), 160) + ";"
+					break
+				}
+				n++
+				want := mn[k] + (mx[k]-mn[k])*i[k]/cc[k]
+				if math.Abs(got-want) > 1e-12 && len(bad) < 300 {
+					bad += fmt.Sprintf(" counts %v offset %v: %s = %g, expected %g;", cc, i, ax, got, want)
+				}
+			}
+		}
+	}
+	r.check("K16", "dcOctree.relToSDF|offset-i-lies-at-Min+Size·i/cellCounts", rel.Pos(), bad == "" && n > 0, fmt.Sprintf("%d coordinates on four lattices;%s", n, bad))
+	r.floor("K16", 1)
+}
+
+// checkRootCoversAllAxes (K17): the root of the octree is a cube whose side is the largest of the
+// three (rounded-up) cell counts. With a smaller side the tree covers only part of the box on
+// the axis that was left out and the mesh stays open there (an upright part when Z is forgotten).
+func checkRootCoversAllAxes(ctx *Ctx, r *Report) {
+	fn := ctx.ssaFunc("render/dc", "dcNewOctree")
+	if fn == nil {
+		r.undecided("K17", "dcNewOctree", 0, "not found")
+		return
+	}
+	ev := newEval(ctx)
+	res, st := ev.evalRoot(fn)
+	root, ok := resultObject(res, st)
+	if !ok {
+		r.undecided("K17", "dcNewOctree", fn.Pos(), "the root is not a fresh object")
+		return
+	}
+	sz, _ := fieldOf(root, "size")
+	szT, _ := sz.(*Term)
+	if szT == nil {
+		r.undecided("K17", "dcNewOctree", fn.Pos(), "the root has no scalar size")
+		return
+	}
+	cc := paramName(fn, 0)
+	pow2 := func(n int64) int64 {
+		p := int64(1)
+		for p < n {
+			p *= 2
+		}
+		return p
+	}
+	bad := ""
+	n := 0
+	for _, c := range [][3]int64{{3, 5, 17}, {17, 3, 5}, {5, 17, 3}, {8, 8, 8}, {1, 2, 70}, {70, 1, 2}, {2, 70, 1}} {
+		env := map[string]*big.Rat{}
+		for k, ax := range axes3 {
+			env[cc+"."+ax] = big.NewRat(c[k], 1)
+		}
+		var got *big.Rat
+		func() {
+			defer func() {
+				if recover() != nil {
+					got = nil
+				}
+			}()
+			got = evalT(szT, env)
+		}()
+		if got == nil {
+			bad = " the root's size is not a closed form of the cell counts: " + shortKey(szT.Key(), 160) + ";"
+			break
+		}
+		n++
+		want := pow2(c[0])
+		for _, v := range c[1:] {
+			if p := pow2(v); p > want {
+				want = p
+			}
+		}
+		if (!got.IsInt() || got.Num().Int64() != want) && len(bad) < 300 {
+			bad += fmt.Sprintf(" counts %v: side %s, expected %d;", c, got.RatString(), want)
+		}
+	}
+	r.check("K17", "dcNewOctree|root-side-is-the-largest-rounded-count", fn.Pos(), bad == "" && n > 0, fmt.Sprintf("%d count triples with the largest on each axis in turn;%s", n, bad))
+	r.floor("K17", 1)
 }
